@@ -319,3 +319,36 @@ Definition xcreating (o : xop) : bool :=
   | XOMap _ _ | XOMapValues _ _ | XOMapK _ _ _ | XOMapAsync _ _ => true
   | _ => false
   end.
+
+(* ================= which literals an operation may mention ================= *)
+Definition scalar (v : hval) : Prop := match v with HL _ | HO _ => False | _ => True end.
+Definition scalarb (v : hval) : bool := match v with HL _ | HO _ => false | _ => true end.
+Definition operand_ok (o : operand) : Prop := match o with Lit v => scalar v | Reg _ => True end.
+Definition operand_okb (o : operand) : bool := match o with Lit v => scalarb v | Reg _ => true end.
+
+(* every operand occurring in an operation *)
+Definition op_operands (o : op) : list operand :=
+  match o with
+  | NewList vs | NewObject vs | LAdd _ vs | OSet _ vs => vs
+  | NewListOf v _ | LInsert _ _ v | LReplace _ _ v | LContains _ v | LIndexOf _ v | OContains _ v | OKeyOf _ v _ | SetTF _ _ v => [v]
+  | _ => []
+  end.
+Fixpoint nsrc_operands (n : nsrc) : list operand :=
+  match n with
+  | NOp o => [o]
+  | NSlice l => flat_map nsrc_operands l
+  | NMap kvs => flat_map (fun kv => nsrc_operands (snd kv)) kvs
+  end.
+Definition xop_operands (o : xop) : list operand :=
+  match o with
+  | Base b => op_operands b
+  | XNewListFrom src => nsrc_operands (NSlice src)
+  | XNewObjectFrom src => nsrc_operands (NMap src)
+  | _ => []
+  end.
+
+(* every [Lit v] operand of the operation is a scalar *)
+Definition op_ok (o : op) : Prop := Forall operand_ok (op_operands o).
+Definition xop_ok (o : xop) : Prop := Forall operand_ok (xop_operands o).
+Definition op_okb (o : op) : bool := forallb operand_okb (op_operands o).
+Definition xop_okb (o : xop) : bool := forallb operand_okb (xop_operands o).
